@@ -198,6 +198,9 @@ func OnPool(p *engine.GenginePool, c Call, data map[string]interface{}, tag *eng
 	case "ExecuteRulesWithSpecifiedEM":
 		keys := make([]string, 0, len(data))
 		for k := range data {
+			if k == "stag" && len(data) > 2 {
+				continue // the req/resp style method carries two values only
+			}
 			keys = append(keys, k)
 		}
 		sort.Strings(keys)
